@@ -80,6 +80,41 @@ def outJ (E : Env) (o : Out Res × Nat) : Json :=
   | (.err f, c) => Json.mkObj [("err", Json.str (if f.fuel then "fuel" else if f.depth then "depth" else "parse")),
                                ("cost", Json.num c)]
 
+/-- the data-class instances of a result in pre-order (declaration order of fields, list order): (class, level) -/
+partial def instancesOf (n : Nat) : Res → List (Nat × Nat)
+  | .leaf _ => []
+  | .none => []
+  | .data k fs => (k, n + 1) :: fs.flatMap fun p => instancesOf (n + 1) p.2
+  | .list rs => rs.flatMap (instancesOf n)
+  | .tuple rs => rs.flatMap (instancesOf n)
+  | .dict kvs => kvs.flatMap fun p => instancesOf n p.2
+
+def fieldName (E : Env) (k : Nat) (j : Json) : String :=
+  match j with
+  | .str s => s
+  | _ =>
+    match E[k]? with
+    | some cd => if cd.fields.isEmpty then "zz" else (cd.fields[nat! j % cd.fields.length]?.map (·.1)).getD "zz"
+    | none => "zz"
+
+def assignJ (o : Out Res × Nat) (f : String) : Json :=
+  match o with
+  | (.ok (.data _ fs), c) => Json.mkObj [("ok", resJ ((fs.lookup f).getD .none)), ("cost", Json.num c)]
+  | (.ok r, c) => Json.mkObj [("ok", resJ r), ("cost", Json.num c)]
+  | (.err f', c) => Json.mkObj [("err", Json.str (if f'.fuel then "fuel" else if f'.depth then "depth" else "parse")),
+                               ("cost", Json.num c)]
+
+/-- one assignment step on the `nth` instance of class `cls` of the parsed tree (a fresh instance when there is none) -/
+def stepJ (E : Env) (Q : Quirks) (fuel : Nat) (tree : Out Res × Nat) (st : Json) : Json :=
+  match tree with
+  | (.err _, _) => Json.null
+  | (.ok r, _) =>
+    let k := nat! (fld st "cls")
+    let cands := (instancesOf 0 r).filter fun p => p.1 == k
+    let level := if cands.isEmpty then 0 else ((cands[nat! (fld st "nth") % cands.length]?).map (·.2)).getD 0
+    let f := fieldName E k (fld st "field")
+    assignJ (parseAssign driverWorld Q E fuel level k f (mkVal (fld st "value"))) f
+
 def handle (j : Json) : Json :=
   let E : Env := (arr! (fld j "classes")).map mkClass
   let v := mkVal (fld j "value")
@@ -87,8 +122,14 @@ def handle (j : Json) : Json :=
   let via := str! (fld j "entry") == "transform"
   let k := nat! (fld j "root")
   let fuel := 100000
-  let lim := outJ E (parseTop driverWorld Q E fuel via k v)
+  let tl := parseTop driverWorld Q E fuel via k v
+  let lim := outJ E tl
+  let steps := arr! (fld j "steps")
   if bool! (fld j "skip_unl") then Json.mkObj [("lim", lim)]
-  else Json.mkObj [("lim", lim), ("unl", outJ E (parseTop driverWorld Q (unlimited E) fuel via k v))]
+  else
+    let tu := parseTop driverWorld Q (unlimited E) fuel via k v
+    Json.mkObj [("lim", lim), ("unl", outJ E tu),
+                ("steps", Json.arr (steps.map fun st =>
+                  Json.mkObj [("lim", stepJ E Q fuel tl st), ("unl", stepJ (unlimited E) Q fuel tu st)]).toArray)]
 
 def main : IO Unit := serve handle
